@@ -37,7 +37,7 @@ ID = "C06"
 LEVEL = "fault_enumeration"
 TECHNIQUE = "fault/schedule enumeration of spawn programs (gate scheduler DFS) with done()-at-exit sampling and quiescence (hang) detection"
 RULE = (
-    "cases = (program: spawn sites x task scripts x body outcome, schedule); programs with <= 2 tasks are enumerated completely (9 scripts x 3 spawn sites x 4 body outcomes), "
+    "cases = (program: spawn sites x task scripts x body outcome, schedule); programs with <= 2 tasks are enumerated completely (9 scripts x 4 spawn sites (body, nested sync scope, update, loop callback) x 5 body outcomes), "
     "3-4 task programs with grandchildren and a nested async scope are sampled; schedules by DFS up to a cap, random beyond; non-trivial = at least one task was still pending "
     "when the body ended; distinct by (program, schedule hash)"
 )
@@ -46,7 +46,7 @@ ASSUMPTIONS = [
     "never-released blockers are only generated where the task group must abort (failing/cancelled body or a failing sibling)",
     "spawn from a plain task after its scope ended is unspecified and not generated",
 ]
-MINIMUMS = {"monitor:children-done-at-exit": 3000, "pending_at_body_end": 1500, "aborted_groups": 1000, "grandchildren": 100, "monitor:forever-cancelled": 300, "monitor:detached-outside": 3}
+MINIMUMS = {"monitor:children-done-at-exit": 3000, "pending_at_body_end": 1500, "aborted_groups": 1000, "grandchildren": 100, "monitor:forever-cancelled": 300, "monitor:detached-outside": 3, "calls_of_callables_with_another_advertised_signature": 1}
 JOBS = {"quick": 4, "thorough": 16}
 OPTIMIZED_SHARDS = {"quick": 2, "thorough": 8}  # the same cases once more under `python -O`
 LEVEL_TEXT = (
@@ -346,7 +346,7 @@ def factories(R: Recorder) -> None:
 
 
 def run(R: Recorder, tier: str, seed: int, shard: int, nshards: int) -> None:
-    R.flags["exhaustive_core"] = "all programs with <= 2 spawned tasks (9 scripts x 3 spawn sites x 4 body outcomes) x all gate-release orders (capped)"
+    R.flags["exhaustive_core"] = "all programs with <= 2 spawned tasks (9 scripts x 4 spawn sites (body, nested sync scope, update, loop callback) x 5 body outcomes) x all gate-release orders (capped)"
     if shard == 0:
         detached(R)
         factories(R)
